@@ -40,6 +40,8 @@ type Config struct {
 	FeeMode    lnmodel.FeeMode
 	FeeConst   uint64
 	WithServer bool
+	// ReadsViaHTTP (with WithServer): state checks and restores go through the HTTP handler instead of the Go API
+	ReadsViaHTTP bool
 	// ViaCLN: the mint talks to the Lightning model through the repository's Core Lightning adapter and an
 	// imitation of the node's REST interface (harness/clnfacade) instead of using the model as its backend directly
 	ViaCLN bool
